@@ -66,6 +66,7 @@ namespace ss
             p.set("tasks", workers + 1);
             p.set("budget", 4000);
             p.set("main_uses", r.chance(3, 4) ? 1 : 0);
+            p.set("exit_user", r.chance(1, 3) ? 1 : 0); // a static object's destructor uses a temporary_allocator
             if (r.chance(1, 6))
                 p.set("malloc_fail", (long long)r.range(1, 6));
             // task 0 is the main thread: it starts and joins the workers at drawn points
